@@ -14,3 +14,17 @@ done < <(find "$REPO/tests/fonts" "$REPO/tests/aots" "$REPO/tests/font_specimen"
           \( -iname '*.ttf' -o -iname '*.otf' -o -iname '*.ttc' -o -iname '*.woff' -o -iname '*.woff2' \) \
           -size -65537c -size +0c -print0 2>/dev/null | sort -z)
 echo "c01_bytes: $n seed files copied to $DEST"
+# generated per-format seeds (written by the harness itself when it has been built)
+HERE="$(cd "$(dirname "${BASH_SOURCE[0]}")" && pwd)"
+BIN="$(dirname "$(dirname "$HERE")")/target/release/vcheck"
+if [ -x "$BIN" ]; then
+  TMP="$(mktemp -d)"
+  VERIF_ROOT="$TMP" VERIF_SCALE=0.00001 VERIF_JOBS=1 C01_LIST_SEEDS="$TMP/list" C01_DUMP_SEEDS="$TMP/gen" "$BIN" run C01 --tier quick --seed 0 > /dev/null 2>&1
+  g=0
+  for f in "$TMP"/gen/*.bin; do
+    [ -f "$f" ] || continue
+    cp "$f" "$DEST/seed-gen-$(basename "$f")"; g=$((g+1))
+  done
+  rm -rf "$TMP"
+  echo "c01_bytes: $g generated seed files copied to $DEST"
+fi
